@@ -29,7 +29,12 @@ MANIFEST = {
             "control flow / variant sites), which must also equal the variant found by running the witnesses. Tied to /repo on every run by a correspondence run over "
             "operation sequences through functions and methods, variant selected by running the witnesses.",
     "design_ref": "DESIGN.md 6/C07-C08",
-    "note": "Trusted: Coq kernel + vm_compute; the hand-written model (checked by correspondence, not translated); the "
+    "note": "Every mutator theorem is conditional on the operation returning Ok (Example mutators_succeed shows the "
+            "hypotheses satisfiable on a constructed object in the repaired and the pinned variant; which error is raised "
+            "otherwise is correspondence only). remove_pairs / clear_pairs_flags / set_pairs assume well-kinded input "
+            "(true of every constructed object and of every mutator result: compress_well_kinded). In this model the new "
+            "`modified` is the abstract constant new_time: 'strictly later' is NOT a theorem of this model. "
+            "Trusted: Coq kernel + vm_compute; the hand-written model (checked by correspondence, not translated); the "
             "harness's reference set model used as oracle. 'modified strictly later' is checked on the implementation "
             "by the oracle; the theorem result_is_new_version (Props/C07Versioning.v, an OPTIONAL group built separately) carries "
             "C05's nv_strict/nv_exact over to the new_version calls whose keyword names tr_markings reads from the source; it "
